@@ -105,6 +105,11 @@ def gen(rng, tier):
                     continue
                 j, _ = txgen.rand_tx(rng, kind=kind, chain=rng.choice([1, 5, 2 ** 64 - 1]))
                 cases.append(Case("tx.encode %s %064x %064x %d" % (hx(j), a, b, rng.randrange(2)), tags=("chosen-signature", "width:%d" % w)))
+    # chosen signatures carrying each of the four recovery ids: yParity / v use bit 0 only
+    for kind in ("legacy", "eip2930", "eip1559"):
+        for rid in (0, 1, 2, 3):
+            j, _ = txgen.rand_tx(rng, kind=kind, chain=rng.choice([1, 5, 2 ** 64 - 1]))
+            cases.append(Case("tx.encode %s %064x %064x %d" % (hx(j), rng.randrange(1, N), rng.randrange(1, N // 2), rid), tags=("chosen-signature", "recovery-id:%d" % rid)))
     # chosen signatures with a zero byte at each position 0..31 of r / s
     for pos in range(32):
         b = bytearray(rng.getrandbits(8) | 1 for _ in range(32))
